@@ -22,12 +22,14 @@ func init() {
 		Level: "model_checking",
 		Rule: "E-SEQ: breadth-first search over chat histories (connect, disconnect, public line plain/emote/zero-chat-id/over-long, invite to new chat, invite to existing chat, join, leave, decline, set subject, private line) of 3 clients " +
 			"with (read,send) chat privileges (1,1),(0,1),(1,0) and name lengths 1/13/14, each history replayed on a fresh real server; after the last operation the set of (recipient, transaction) deliveries is compared with a reference chat model; " +
-			"states deduplicated by connected set + chat memberships + subjects",
-		Assumptions: []string{"3 clients, at most 2 private chats; operations address existing users and chats; default schedule (the quantifier's interleavings are interleavings of operations, i.e. histories)"},
+			"states deduplicated by connected set + chat memberships + subjects. " +
+			"E-SCHED: from three base states (a private chat with two members and a third user invited; all three joined; two private chats) every pair of operations by two different clients (public/private line, invite, join, leave, decline, subject) is issued concurrently and every schedule with at most 1 (thorough 2) deviations is executed: " +
+			"what both sequential orders deliver must be delivered exactly as often, what only one of them delivers may be, nothing else, and the memberships afterwards are those of one of the orders",
+		Assumptions:    []string{"3 clients, at most 2 private chats; operations address existing users and chats; default schedule (the quantifier's interleavings are interleavings of operations, i.e. histories)"},
 		Run:            runC12,
 		Replay:         replayC12,
 		MinOutcomes:    20,
-		QuickBudget:    150 * time.Second,
+		QuickBudget:    400 * time.Second,
 		ThoroughBudget: 25 * time.Minute,
 	})
 }
@@ -50,16 +52,38 @@ type c12Chat struct {
 }
 
 type c12World struct {
-	wd     *world.World
-	cl     [3]*world.Client
-	on     [3]bool
-	ids    [3]uint16
-	chats  []*c12Chat
-	viol   []explore.SchedV
-	nconn  int
-	banned map[string]bool // "k/c": k left or declined chat c and has not re-joined
-	deaf   [3]bool         // the client has stopped reading its socket
-	canRead [3]bool        // current read-chat privilege of each slot's account (an administrator may edit it)
+	wd      *world.World
+	cl      [3]*world.Client
+	on      [3]bool
+	ids     [3]uint16
+	chats   []*c12Chat
+	viol    []explore.SchedV
+	nconn   int
+	banned  map[string]bool // "k/c": k left or declined chat c and has not re-joined
+	deaf    [3]bool         // the client has stopped reading its socket
+	canRead [3]bool         // current read-chat privilege of each slot's account (an administrator may edit it)
+	// mode 0: issue the request, run to quiescence, update the model (sequential histories);
+	// mode 1: issue the request only (one of two concurrent clients; the model copy is thrown away);
+	// mode 2: update the model only and remember the expected deliveries (reference for one order of a pair)
+	mode       int
+	lastExpect []c12Delivery
+	lastKnown  bool
+}
+
+// cloneModel copies the reference state (the clients are shared: a clone in mode 2 never uses them).
+func (x *c12World) cloneModel(mode int) *c12World {
+	y := &c12World{wd: x.wd, cl: x.cl, on: x.on, ids: x.ids, nconn: x.nconn, banned: map[string]bool{}, deaf: x.deaf, canRead: x.canRead, mode: mode}
+	for k, v := range x.banned {
+		y.banned[k] = v
+	}
+	for _, c := range x.chats {
+		n := &c12Chat{id: c.id, members: map[int]bool{}, subject: c.subject}
+		for m := range c.members {
+			n.members[m] = true
+		}
+		y.chats = append(y.chats, n)
+	}
+	return y
 }
 
 func (x *c12World) fail(clause, detail string) {
@@ -128,7 +152,17 @@ func (x *c12World) apply(op string, check bool) bool {
 			mark[i] = len(x.cl[i].Inbox)
 		}
 	}
-	settle := func() { world.Quiet() }
+	settle := func() {
+		if x.mode == 0 {
+			world.Quiet()
+		}
+	}
+	req := func(k int, typ uint16, fs ...ref.Fld) uint32 {
+		if x.mode == 2 {
+			return 0
+		}
+		return x.cl[k].Req(typ, fs...)
+	}
 	if x.deaf[k] && p[0] != "off" && p[0] != "edit" {
 		return false // a client that does not read cannot see replies: it issues nothing further
 	}
@@ -204,7 +238,7 @@ func (x *c12World) apply(op string, check bool) bool {
 		if zero {
 			fs = append(fs, ref.F32(ref.FChatID, 0))
 		}
-		x.cl[k].Req(ref.TChatSend, fs...)
+		req(k, ref.TChatSend, fs...)
 		settle()
 		if c12CanSend[k] {
 			line := c12Format(c12Names[k], msg, emote)
@@ -235,7 +269,7 @@ func (x *c12World) apply(op string, check bool) bool {
 		if c == nil || !x.on[k] || !x.on[t] || !c.members[k] {
 			return false
 		}
-		x.cl[k].Req(ref.TInviteToChat, ref.F16(ref.FUserID, x.ids[t]), ref.F(ref.FChatID, c.id))
+		req(k, ref.TInviteToChat, ref.F16(ref.FUserID, x.ids[t]), ref.F(ref.FChatID, c.id))
 		settle()
 		expect = append(expect, c12Delivery{t, fmt.Sprintf("113 chat%s", p[2])})
 	case "join":
@@ -248,7 +282,7 @@ func (x *c12World) apply(op string, check bool) bool {
 				expect = append(expect, c12Delivery{m, fmt.Sprintf("117 chat%s user%d", p[2], k)})
 			}
 		}
-		x.cl[k].Req(ref.TJoinChat, ref.F(ref.FChatID, c.id))
+		req(k, ref.TJoinChat, ref.F(ref.FChatID, c.id))
 		settle()
 		c.members[k] = true
 		delete(x.banned, p[1]+"/"+p[2])
@@ -257,7 +291,7 @@ func (x *c12World) apply(op string, check bool) bool {
 		if c == nil || !x.on[k] || !c.members[k] {
 			return false
 		}
-		x.cl[k].Req(ref.TLeaveChat, ref.F(ref.FChatID, c.id))
+		req(k, ref.TLeaveChat, ref.F(ref.FChatID, c.id))
 		settle()
 		delete(c.members, k)
 		x.banned[p[1]+"/"+p[2]] = true
@@ -271,7 +305,7 @@ func (x *c12World) apply(op string, check bool) bool {
 		if c == nil || !x.on[k] || c.members[k] {
 			return false
 		}
-		x.cl[k].Req(ref.TRejectChatInvite, ref.F(ref.FChatID, c.id))
+		req(k, ref.TRejectChatInvite, ref.F(ref.FChatID, c.id))
 		settle()
 		x.banned[p[1]+"/"+p[2]] = true
 		for m := range c.members {
@@ -285,7 +319,7 @@ func (x *c12World) apply(op string, check bool) bool {
 			return false
 		}
 		subj := "topic" + p[1]
-		x.cl[k].Req(ref.TSetChatSubject, ref.F(ref.FChatID, c.id), ref.FS(ref.FChatSubject, subj))
+		req(k, ref.TSetChatSubject, ref.F(ref.FChatID, c.id), ref.FS(ref.FChatSubject, subj))
 		settle()
 		c.subject = subj
 		for m := range c.members {
@@ -303,7 +337,7 @@ func (x *c12World) apply(op string, check bool) bool {
 		if emote {
 			fs = append(fs, ref.F16(ref.FChatOptions, 1))
 		}
-		x.cl[k].Req(ref.TChatSend, fs...)
+		req(k, ref.TChatSend, fs...)
 		settle()
 		if c12CanSend[k] {
 			line := c12Format(c12Names[k], msg, emote)
@@ -316,13 +350,54 @@ func (x *c12World) apply(op string, check bool) bool {
 	default:
 		panic(op)
 	}
+	x.lastExpect, x.lastKnown = expect, expectKnown
 	if !check {
 		return true
 	}
-	// what did everybody actually receive (chat-related, server-initiated transactions)?
+	got := x.collect(mark, p[0] == "on", p[0] == "off", k)
+	canon := func(ds []c12Delivery) []string {
+		var s []string
+		for _, d := range ds {
+			if x.deaf[d.to] {
+				continue // what a client that does not read would have received stays in flight
+			}
+			s = append(s, fmt.Sprintf("to%d: %s", d.to, clipMid(d.what)))
+		}
+		sort.Strings(s)
+		return s
+	}
+	g := canon(got)
+	// nothing from a chat to a user who left it or declined
+	for _, d := range got {
+		for key := range x.banned {
+			kc := strings.Split(key, "/")
+			if fmt.Sprint(d.to) == kc[0] && strings.Contains(d.what, " chat"+kc[1]+" ") && !strings.HasPrefix(d.what, "113") {
+				x.fail("delivery-after-leave-or-decline", fmt.Sprintf("op %s: user %s left/declined chat %s but received %s", op, kc[0], kc[1], clipMid(d.what)))
+			}
+		}
+	}
+	if expectKnown {
+		e := canon(expect)
+		if strings.Join(g, "\n") != strings.Join(e, "\n") {
+			clause := "audience/" + p[0]
+			if len(g) == len(e) {
+				clause = "content/" + p[0]
+			}
+			x.fail(clause, fmt.Sprintf("op %s: delivered\n%s\nreference model\n%s", op, strings.Join(g, "\n"), strings.Join(e, "\n")))
+		}
+	} else {
+		for _, d := range got {
+			x.fail("audience/"+p[0], fmt.Sprintf("op %s caused chat traffic: to%d %s", op, d.to, clipMid(d.what)))
+		}
+	}
+	return true
+}
+
+// collect: the chat-related, server-initiated transactions every client received since mark.
+func (x *c12World) collect(mark [3]int, isOn, isOff bool, k int) []c12Delivery {
 	var got []c12Delivery
 	for i := range x.cl {
-		if x.cl[i] == nil || (!x.on[i] && !(p[0] == "off" && i == k)) {
+		if x.cl[i] == nil || (!x.on[i] && !(isOff && i == k)) {
 			continue
 		}
 		x.cl[i].Poll()
@@ -330,7 +405,7 @@ func (x *c12World) apply(op string, check bool) bool {
 			x.fail("stream-unparseable", fmt.Sprint(x.cl[i].ParseErr))
 		}
 		start := mark[i]
-		if p[0] == "on" && i == k {
+		if isOn && i == k {
 			start = 0
 		}
 		if start > len(x.cl[i].Inbox) {
@@ -368,42 +443,7 @@ func (x *c12World) apply(op string, check bool) bool {
 			}
 		}
 	}
-	canon := func(ds []c12Delivery) []string {
-		var s []string
-		for _, d := range ds {
-			if x.deaf[d.to] {
-				continue // what a client that does not read would have received stays in flight
-			}
-			s = append(s, fmt.Sprintf("to%d: %s", d.to, clipMid(d.what)))
-		}
-		sort.Strings(s)
-		return s
-	}
-	g := canon(got)
-	// nothing from a chat to a user who left it or declined
-	for _, d := range got {
-		for key := range x.banned {
-			kc := strings.Split(key, "/")
-			if fmt.Sprint(d.to) == kc[0] && strings.Contains(d.what, " chat"+kc[1]+" ") && !strings.HasPrefix(d.what, "113") {
-				x.fail("delivery-after-leave-or-decline", fmt.Sprintf("op %s: user %s left/declined chat %s but received %s", op, kc[0], kc[1], clipMid(d.what)))
-			}
-		}
-	}
-	if expectKnown {
-		e := canon(expect)
-		if strings.Join(g, "\n") != strings.Join(e, "\n") {
-			clause := "audience/" + p[0]
-			if len(g) == len(e) {
-				clause = "content/" + p[0]
-			}
-			x.fail(clause, fmt.Sprintf("op %s: delivered\n%s\nreference model\n%s", op, strings.Join(g, "\n"), strings.Join(e, "\n")))
-		}
-	} else {
-		for _, d := range got {
-			x.fail("audience/"+p[0], fmt.Sprintf("op %s caused chat traffic: to%d %s", op, d.to, clipMid(d.what)))
-		}
-	}
-	return true
+	return got
 }
 
 func clipMid(s string) string {
@@ -487,6 +527,211 @@ func c12Exec(hist []string) (res explore.SeqResult) {
 	return res
 }
 
+// ---- pairs of concurrent operations (E-SCHED) ----
+
+// c12Bases are the histories the pairs start from: one private chat with two members and a third user
+// invited; the same with all three joined; two private chats.
+var c12Bases = [][]string{
+	{"new:0:1", "join:1:0", "inv:0:0:2"},
+	{"new:0:1", "join:1:0", "inv:0:0:2", "join:2:0"},
+	{"new:0:1", "join:1:0", "inv:0:0:2", "join:2:0", "new:1:0", "join:0:1"},
+}
+
+func c12PairOps() []string {
+	var ops []string
+	for _, op := range c12Alphabet() {
+		switch strings.Split(op, ":")[0] {
+		case "pub", "inv", "join", "leave", "decl", "subj", "priv":
+			if !strings.Contains(op, "long") && !strings.Contains(op, "edge") {
+				ops = append(ops, op)
+			}
+		}
+	}
+	return ops
+}
+
+type c12PairParams struct {
+	Base int    `json:"base"`
+	A    string `json:"a"`
+	B    string `json:"b"`
+}
+
+func c12Setup(base []string) (*c12World, bool) {
+	accts := append([]world.Acct{{Login: "probe", Name: "probe", Password: "pp", Access: world.Bits(ref.PAnyName, ref.PModifyUser)}}, c12Accounts...)
+	wd := world.New(world.Cfg{Accounts: accts})
+	x := &c12World{wd: wd, banned: map[string]bool{}, canRead: [3]bool{c12CanRead[0], c12CanRead[1], c12CanRead[2]}}
+	var r *ref.Tx
+	c12Probe, r = wd.Connect("10.9.9.9:999", "probe", "pp", "probe")
+	if r == nil || r.Err != 0 {
+		return x, false
+	}
+	for _, op := range append([]string{"on:0", "on:1", "on:2"}, base...) {
+		if !x.apply(op, false) {
+			return x, false
+		}
+	}
+	return x, true
+}
+
+// c12Order: the reference outcome of a then b from the model state of x: the deliveries and the chat
+// memberships/subjects afterwards; ok=false if b is not meaningful after a.
+func (x *c12World) c12Order(a, b string) (deliveries []string, members string, ok bool) {
+	y := x.cloneModel(2)
+	if !y.apply(a, false) || !y.lastKnown {
+		return nil, "", false
+	}
+	e := append([]c12Delivery(nil), y.lastExpect...)
+	if !y.apply(b, false) || !y.lastKnown {
+		return nil, "", false
+	}
+	e = append(e, y.lastExpect...)
+	for _, d := range e {
+		deliveries = append(deliveries, fmt.Sprintf("to%d: %s", d.to, clipMid(d.what)))
+	}
+	sort.Strings(deliveries)
+	return deliveries, y.members(false), true
+}
+
+func maxInt(a, b int) int {
+	if a > b {
+		return a
+	}
+	return b
+}
+
+func minInt(a, b int) int {
+	if a < b {
+		return a
+	}
+	return b
+}
+
+func multiset(l []string) map[string]int {
+	m := map[string]int{}
+	for _, s := range l {
+		m[s]++
+	}
+	return m
+}
+
+// members: chat memberships and subjects, from the model or from the implementation's chat table
+func (x *c12World) members(impl bool) string {
+	var sb strings.Builder
+	for ci, c := range x.chats {
+		var ms []int
+		if impl {
+			for _, m := range x.wd.Srv.ChatMgr.Members([4]byte(c.id)) {
+				for s := range x.ids {
+					if x.ids[s] == uint16(m.ID[0])<<8|uint16(m.ID[1]) {
+						ms = append(ms, s)
+					}
+				}
+			}
+			sort.Ints(ms)
+			fmt.Fprintf(&sb, "chat%d%v/%s ", ci, ms, x.wd.Srv.ChatMgr.GetSubject([4]byte(c.id)))
+			continue
+		}
+		for m := range c.members {
+			ms = append(ms, m)
+		}
+		sort.Ints(ms)
+		fmt.Fprintf(&sb, "chat%d%v/%s ", ci, ms, c.subject)
+	}
+	return sb.String()
+}
+
+// c12PairUsable: both operations are by different clients and meaningful in either order.
+func c12PairUsable(p c12PairParams) (ok bool) {
+	if strings.Split(p.A, ":")[1] == strings.Split(p.B, ":")[1] {
+		return false
+	}
+	seq(func() {
+		x, up := c12Setup(c12Bases[p.Base])
+		defer x.wd.Close()
+		if !up {
+			return
+		}
+		_, _, ok1 := x.c12Order(p.A, p.B)
+		_, _, ok2 := x.c12Order(p.B, p.A)
+		ok = ok1 && ok2
+	})
+	return ok
+}
+
+// c12Pair: two clients issue one chat operation each at the same moment; whatever the schedule, what
+// everybody receives and the memberships afterwards are those of one of the two sequential orders.
+func c12Pair(p c12PairParams) func() explore.SchedOutcome {
+	return func() (out explore.SchedOutcome) {
+		vrt.BeginSetup()
+		x, up := c12Setup(c12Bases[p.Base])
+		defer x.wd.Close()
+		if !up {
+			out.Violations = append(out.Violations, explore.SchedV{Signature: "C12/pair/setup", Detail: fmt.Sprintf("%+v", p)})
+			return out
+		}
+		ab, mab, _ := x.c12Order(p.A, p.B)
+		ba, mba, _ := x.c12Order(p.B, p.A)
+		var mark [3]int
+		for i := range x.cl {
+			x.cl[i].Poll()
+			mark[i] = len(x.cl[i].Inbox)
+		}
+		c12Probe.New()
+		vrt.EndSetup()
+		for _, op := range []string{p.A, p.B} {
+			op := op
+			vrt.GoNamed("client-"+strings.Split(op, ":")[1], func() { x.cloneModel(1).apply(op, false) })
+		}
+		vrt.WaitQuiet()
+		var got []string
+		for _, d := range x.collect(mark, false, false, -1) {
+			got = append(got, fmt.Sprintf("to%d: %s", d.to, clipMid(d.what)))
+		}
+		sort.Strings(got)
+		// The property fixes the audience of each notice as "the members of the chat"; while two operations
+		// overlap, a user who is joining or leaving is a member for one of them and not for the other, so:
+		// what both sequential orders deliver must be delivered (exactly as often), what only one of them
+		// delivers may be, and nothing else.
+		g, a, b := multiset(got), multiset(ab), multiset(ba)
+		var wrong []string
+		for k, n := range g {
+			if max := maxInt(a[k], b[k]); n > max {
+				wrong = append(wrong, fmt.Sprintf("%s delivered %d times, at most %d in either order", k, n, max))
+			}
+		}
+		for k := range a {
+			if min := minInt(a[k], b[k]); g[k] < min {
+				wrong = append(wrong, fmt.Sprintf("%s delivered %d times, %d in both orders", k, g[k], min))
+			}
+		}
+		mem := x.members(true)
+		if mem != mab && mem != mba {
+			wrong = append(wrong, fmt.Sprintf("memberships afterwards %q, expected %q or %q", mem, mab, mba))
+		}
+		if len(wrong) > 0 {
+			sort.Strings(wrong)
+			out.Violations = append(out.Violations, explore.SchedV{Signature: "C12/pair/outcome-of-two-concurrent-operations-is-outside-both-orders/" + strings.Split(p.A, ":")[0] + "+" + strings.Split(p.B, ":")[0],
+				Detail: fmt.Sprintf("base %v, %s || %s: %s\ndelivered:\n%s\n%s first:\n%s\n%s first:\n%s", c12Bases[p.Base], p.A, p.B, strings.Join(wrong, "; "), strings.Join(got, "\n"), p.A, strings.Join(ab, "\n"), p.B, strings.Join(ba, "\n"))})
+		}
+		for _, t := range c12Probe.New() {
+			switch t.Type {
+			case ref.TChatMsg, ref.TInviteToChat, ref.TNotifyChatChange, ref.TNotifyChatDelete, ref.TNotifyChatSubject:
+				out.Violations = append(out.Violations, explore.SchedV{Signature: "C12/pair/outsider-received-chat-traffic", Detail: t.String()})
+			}
+		}
+		for _, cl := range x.cl {
+			if cl.ParseErr != nil {
+				out.Violations = append(out.Violations, explore.SchedV{Signature: "C12/pair/stream-unparseable", Detail: fmt.Sprint(cl.ParseErr)})
+			}
+		}
+		for _, pn := range vrt.S.Panics() {
+			out.Violations = append(out.Violations, explore.SchedV{Signature: "C12/pair/panic/" + vrt.PanicSite(pn), Detail: pn})
+		}
+		out.Canon = strings.Join(got, "\n") + mem
+		return out
+	}
+}
+
 func c12Alphabet() []string {
 	return []string{
 		"on:0", "on:1", "on:2", "off:0", "off:1", "off:2", "deaf:0", "deaf:2", "edit:0", "edit:1",
@@ -507,9 +752,48 @@ func runC12(w *explore.Worker) {
 		depth = 5
 	}
 	explore.ExploreHistories(w, explore.SeqConfig{Name: "C12chat", Alphabet: c12Alphabet(), Depth: depth, Exec: c12Exec})
+	// pairs of concurrent operations from three base states
+	bound := 1
+	if w.Thorough {
+		bound = 2
+	}
+	ops := c12PairOps()
+	pairs := 0
+	for bi := range c12Bases {
+		for i, a := range ops {
+			for _, b := range ops[i+1:] {
+				p := c12PairParams{Base: bi, A: a, B: b}
+				if !c12PairUsable(p) {
+					continue
+				}
+				pairs++
+				explore.ExploreSchedules(w, explore.SchedConfig{Harness: "C12pair", Params: js(p), Bound: bound, FreeCost: 1, MaxSteps: 20000, Suspend: true}, c12Pair(p))
+			}
+		}
+	}
+	if w.Index == 0 {
+		w.Count("concurrent_pairs", pairs)
+	}
+	w.Max("pair_deviation_bound_completed", bound)
 }
 
 func replayC12(w *explore.Worker, raw json.RawMessage) {
+	var sr explore.SchedReplay
+	if json.Unmarshal(raw, &sr) == nil && sr.Kind == "schedule" {
+		var p c12PairParams
+		if err := json.Unmarshal([]byte(sr.Params), &p); err != nil {
+			w.Broken("bad replay params: %v", err)
+			return
+		}
+		_, out, err := explore.RunSchedule(sr.Choices, 20000, c12Pair(p))
+		if err != nil {
+			w.Broken("replay: %v", err)
+		}
+		for _, v := range out.Violations {
+			w.Violation(v.Signature, v.Detail, 0, sr)
+		}
+		return
+	}
 	var r explore.SeqReplay
 	if err := json.Unmarshal(raw, &r); err != nil {
 		w.Broken("bad replay: %v", err)
